@@ -461,5 +461,5 @@ func init() {
 	AddOp("c18badge", (*Sim).opC18Badge)
 	simrt.Register("C18", &simrt.PropSpec{Fn: runC18, NonTrivial: c18NonTrivial,
 		Rule: "mixed multi-actor histories in which developers issue real badges (types.Badge signed with the developer key; relays signed by the badge user's key) with random CU allocations; providers claim badge relays: first use, further sessions with CU around the remaining allocation (exact fit, +1, above the whole allocation), other providers, several badge relays per tx (badge attached once or to each) mixed with plain relays, claims in later blocks/epochs and after the usage record's expiry block (multi-epoch progress, EpochsToSave/EpochBlocks governance changes); forged variants: badge for another address / epoch / lava chain, signed by a non-developer, allocation / address / epoch replaced after signing. Oracles: per (badge signature, provider) the CU credited (growth of tracked CU, or the payment event's rewardedCU when several relays share a counter) never exceeds the signed allocation; a relay signed by a badge user is paid only through a badge of that tx for that address, epoch and this lava chain; no forged variant is paid; once a BadgeUsedCu record was observed and is gone, or BadgeUsedCuExpiry has passed without a record, the badge is not honoured. Non-trivial = >=2 paid badge relays, >=1 rejected badge relay, >=10 accepted ops",
-		Real:    chainReal, Stubbed: chainStub, Assume: append([]string{"badge users are keys that are never registered as developers of any project"}, chainAssume...)})
+		Real: chainReal, Stubbed: chainStub, Assume: append([]string{"badge users are keys that are never registered as developers of any project"}, chainAssume...)})
 }
